@@ -243,9 +243,44 @@ func ladder(r *engine.Rec) {
 		"sawtooth":  func(n, i int) int { return i % 7 },
 		"all-equal": func(n, i int) int { return 5 },
 		"two-value": func(n, i int) int { return (i * 7 / 3) % 2 },
+		// nearly sorted inputs and inputs made of sorted stretches (what an adaptive merge takes short cuts on)
+		"sorted-but-largest-first": func(n, i int) int {
+			if i == 0 {
+				return n + 1
+			}
+			return i
+		},
+		"sorted-but-smallest-last": func(n, i int) int {
+			if i == n-1 {
+				return -1
+			}
+			return i
+		},
+		"sorted-with-three-swaps": func(n, i int) int {
+			switch {
+			case n >= 6 && (i == n/5 || i == n/2 || i == 4*n/5):
+				return i + 1
+			case n >= 6 && (i == n/5+1 || i == n/2+1 || i == 4*n/5+1):
+				return i - 1
+			}
+			return i
+		},
+		"ascending-stretches-of-17": func(n, i int) int { return i % 17 },
+		"descending-stretches-of-19": func(n, i int) int { return 19 - i%19 },
+		"two-interleaved-runs":       func(n, i int) int { return (i%2)*n + i/2 },
+		"pseudo-random":              func(n, i int) int { return (i*7919 + 13) % (n + 3) },
+	}
+	lengths := []int{}
+	for n := 0; n <= maxLen; n++ {
+		lengths = append(lengths, n)
+	}
+	for _, n := range []int{1023, 1024, 1025, 1500, 2047, 2048, 2049, 3000, 4097} {
+		if n > maxLen {
+			lengths = append(lengths, n)
+		}
 	}
 	for name, f := range shapes {
-		for n := 0; n <= maxLen; n++ {
+		for _, n := range lengths {
 			in := make([]int, n)
 			for i := range in {
 				in[i] = f(n, i)
@@ -275,7 +310,7 @@ func ladder(r *engine.Rec) {
 		r.States += int64(maxLen + 1)
 	}
 	r.Transitions += r.Evals
-	r.Distinct += int64(5 * (maxLen + 1))
+	r.Distinct += int64(len(shapes) * (maxLen + 1))
 	r.Sample(map[string]any{"shape": "sawtooth", "lengths": fmt.Sprintf("0..%d", maxLen)})
 }
 
@@ -673,7 +708,7 @@ func init() {
 				us = append(us, engine.Unit{Name: "arrays-" + n, Run: exhaustiveArrays(n)})
 			}
 			us = append(us, engine.Unit{Name: "every-ranker", Run: everyRanker}, engine.Unit{Name: "ladder", Run: ladder},
-				engine.Unit{Name: "shuffle", Run: shuffle}, engine.Unit{Name: "collections", Run: collections}, engine.Unit{Name: "sorter-reuse", Run: reuse}, engine.Unit{Name: "collection-histories", Run: histories}, engine.Unit{Name: "catalog-keys-that-rank-equal", Run: tieKeyUnit})
+				engine.Unit{Name: "shuffle", Run: shuffle}, engine.Unit{Name: "collections", Run: collections}, engine.Unit{Name: "sorter-reuse", Run: reuse}, engine.Unit{Name: "collection-histories", Run: histories}, engine.Unit{Name: "catalog-keys-that-rank-equal", Run: tieKeyUnit}, engine.Unit{Name: "long-arrays-under-the-scheduler", Run: largeUnderScheduler})
 			return us
 		},
 	})
